@@ -417,7 +417,7 @@ def _bind_call(call: ast.Call, fn, position: int) -> dict:
     return bindings
 
 
-def value_expr(path: Path, index: int, expr, depth: int = 6, keep_clock: bool = True,
+def value_expr(path: Path, index: int, expr, depth: int = 12, keep_clock: bool = True,
                keep=(), frame=None, trace: list = None):
     """
     ``expr`` (evaluated at event ``index`` of ``path``) with local names replaced by the
